@@ -16,6 +16,12 @@ def crate():
     return d
 
 
+def unescape_rust(t):
+    """inverse of str::escape_default"""
+    simple = {'n': '\n', 't': '\t', 'r': '\r', '\\': '\\', "'": "'", '"': '"', '0': '\0'}
+    return re.sub(r'\\(u\{([0-9a-fA-F]+)\}|.)', lambda a: chr(int(a.group(2), 16)) if a.group(2) else simple.get(a.group(1), a.group(1)), t)
+
+
 def main():
     d = crate()
     src = os.path.join(build.VERIF, 'selftest', 'lib.rs')
@@ -61,8 +67,8 @@ def main():
             bad += 1
             continue
         k, v = res[0][1]
-        got = 'PANIC' if k == 'panic' else show(models2.deref_all(None, v) if not isinstance(v, RStr) else v).encode('unicode_escape').decode()
-        want = native[name].encode().decode('unicode_escape').encode('unicode_escape').decode()
+        got = 'PANIC' if k == 'panic' else show(models2.deref_all(None, v) if not isinstance(v, RStr) else v)
+        want = native[name] if native[name] == 'PANIC' else unescape_rust(native[name])
         if got == want:
             print(f'{name}: agree ({len(got)} chars)')
         else:
